@@ -12,6 +12,7 @@ Ev == Trace[l]
 Why(e) == LET x == Expect(e.calls) IN
           IF ~ChainRule(e.calls, TRUE) THEN "chain"
           ELSE IF x.kind = "plain" /\ ~VisitsAll(e.calls, e.tls) THEN "visit"
+          ELSE IF e.sent = "mixed" THEN "mixed-response"
           ELSE IF ~SentOK(x, e.sent) THEN "sent"
           ELSE IF x.kind # "gray" /\ e.bk \notin x.bk THEN "backend"
           ELSE IF x.kind # "gray" /\ e.closed \notin x.closed THEN "closed"
